@@ -1,5 +1,7 @@
 """C19 - error handling and library context as a state machine (DESIGN.md section 4, C19)."""
+import itertools
 import json
+import os
 import random
 
 from vlib import core
@@ -65,10 +67,71 @@ def run(tier, seed):
     rnd = random_programs(rng, 4000 if quick else 60000, 40)
     conf.run("random", "std256", "err_vm", ["err_vm.c"], rnd, "trace/ErrTrace.tla", nontrivial=nontrivial,
              min_per_shard=100)
+    context_half(conf, ev, wd, rng, quick)
     ev.cov["exhaustive"] = True
     ev.cov["exhaustive_note"] = "all complete programs of the model within the generator's token budget were replayed"
     return conf.finish()
 
 
+def fresh_table(cfg, wd, label):
+    """probe of a freshly initialised library, ONE PROCESS per parameter id"""
+    exe = core.cc_harness(cfg, "ctx", ["drv_ctx.c"])
+    d = os.path.join(wd, "fresh-" + label)
+    os.makedirs(d, exist_ok=True)
+    open(os.path.join(d, "ids.txt"), "w").write("ids\n")
+    ids = core.run_driver(exe, os.path.join(d, "ids.txt"), os.path.join(d, "ids.ndjson"))[0]["ids"]
+    table = []
+    for i in ids:
+        cp = os.path.join(d, "f%d.txt" % i)
+        open(cp, "w").write("fresh %d\n" % i)
+        table += core.run_driver(exe, cp, os.path.join(d, "f%d.ndjson" % i), timeout=300)
+    tp = os.path.join(d, "fresh.ndjson")
+    core.write_ndjson(tp, table)
+    for t in table:
+        if not t["items"] or any(it["k"] == "THROWN" for it in t["items"]):
+            raise core.InfraError("fresh probe of parameter %s is incomplete" % t["id"])
+    return ids, tp
+
+
+def context_half(conf, ev, wd, rng, quick):
+    """re-parameterisation histories, context switches, threads (code -> spec)"""
+    core.run_models(ev, [("MCCtx", "MCCtx", "4 parameter ids (plain, endom, 2 pairing), 3 contexts, 2 threads, 5 steps", False)])
+    ids, fresh = fresh_table("std256", wd, "std256")
+    ev.cov["parameter_ids"] = ids
+    cases = []
+    # every ordered pair of selectable sets, then longer seeded sequences, then in-process re-init
+    for a, b in itertools.product(ids, ids):
+        cases.append("seq %d %d" % (a, b))
+    for _ in range(6 if quick else 60):
+        cases.append("seq " + " ".join(str(rng.choice(ids)) for _ in range(rng.randint(3, 8))))
+    cases.append("seq " + " ".join(map(str, ids + ids[::-1])))
+    for a in ids:
+        cases.append("fresh %d" % a)
+    # two contexts with different selections, switched back and forth
+    pairs = list(itertools.permutations(ids, 2))
+    for a, b in (rng.sample(pairs, 8) if quick else pairs):
+        cases.append("two %d %d 2" % (a, b))
+
+    def nt(e):
+        return e.get("pos", 0) > 1          # non-trivial: a probe after at least one earlier selection
+    conf.run("reparam", "std256", "ctx", ["drv_ctx.c"], cases, "trace/CtxTrace.tla", shards=4,
+             env={"FRESH": fresh}, nontrivial=nt, min_per_shard=40, driver_timeout=1200)
+    # threads: each thread its own context and selection sequence, run concurrently
+    mids, mfresh = fresh_table("multi", wd, "multi")
+    tcases = []
+    for _ in range(12 if quick else 400):
+        tcases.append("thr " + " ".join(",".join(str(rng.choice(mids)) for _ in range(rng.randint(1, 3)))
+                                        for _ in range(4)))
+    conf.run("threads", "multi", "ctx", ["drv_ctx.c"], tcases, "trace/CtxTrace.tla", shards=4,
+             env={"FRESH": mfresh}, nontrivial=lambda e: True, min_per_shard=40, driver_timeout=1800)
+
+
 def replay(path, seed):
+    r = json.load(open(path))
+    if r.get("label") in ("reparam", "threads"):
+        # the fresh table is rebuilt from the current tree
+        wd = core.workdir("C19", "replayfresh")
+        ids, fresh = fresh_table(r["cfg"], wd, r["cfg"])
+        r["env"] = {"FRESH": fresh}
+        path = core.save_replay("C19", r, name="replay-tmp")
     return core.replay_generic(path)
